@@ -23,7 +23,8 @@ DEVS = {"CopyBumpOnlyToSrcStage": ("ProfSmall", 0, "Refinement"),
         "NoDependentNotify": ("ProfPre", 0, "Refinement"),
         "NoReRegisterAfterCopy": ("ProfPre", 0, "Refinement"),
         "AutoSwapsInvalid": ("ProfAuto", 1, "ValuesAgree"),
-        "AutoEntryNotInvalidatedByUpd": ("ProfAuto", 0, "Refinement")}
+        "AutoEntryNotInvalidatedByUpd": ("ProfAuto", 0, "Refinement"),
+        "SkipUnflagged": ("ProfChain", 0, "Refinement")}
 # deviations of rules whose effect is shared by both layers of the spec (stages, existence, plain
 # values, counters) have no design-level counterexample; the random walks exercise those rules and
 # the comparison with the real code decides them
@@ -175,7 +176,7 @@ def main():
         cov["transitions"] += res.states
         cov["design_check"] = {"distinct": res.distinct, "generated": res.states, "depth": res.depth,
                                "invariants": MC_INVS.split(), "config": "1 object replaced by its own copies, "
-                               "6 profiles, versions <= %d" % (3 if tier == "quick" else 4)}
+                               "8 profiles, versions <= %d" % (3 if tier == "quick" else 4)}
         if res.violated:
             acts, cfg = acts_from_counterexample(res)
             rep.violation("design/" + res.violated, {"cfg": cfg, "program": unself(acts)},
@@ -206,7 +207,7 @@ def main():
                 dist[dev] = len(prog)
                 programs.append((cfg, prog, "dev:" + dev))
             else:
-                dist[dev] = None
+                raise vlib.Infra("deviation %s has no counterexample (vacuous check?)" % dev)
         cov["deviations_distinguished"] = dist
         # 3. biased random walks of the spec
         nwalk, depth = (320, 40) if tier == "quick" else (4000, 60)
